@@ -21,7 +21,9 @@ def stmt_shapes(rng, n, ctxkind):
              "loop loop break end break end", "loop if true then break end continue end", "if 'a' then return %s end" % rng.choice(ret_ok),
              "set z to true + 1", "set z to 1 and 2", "set z to 'a' - 'b'", "set z to not 1", "set z to head 3", "return x",
              "set w to head x", "set w to tail y", "set w to y and true", "if y and true then %s end", "set w to x - true", "set w to x * '2'", "set x to matchLength", "set y to matchLength > 3",
-             "set w to x + 1", "if x then %s end"]
+             "set w to x + 1", "if x then %s end",
+             # empty bodies: each branch is checked on its own
+             "if true then else %s end", "if true then end", "if 1 < 2 then else %s end", "if true then else end", "if 'a' then else %s end", "if true then %s else end"]
     out = []
     for _ in range(n):
         k = rng.choice([1, 2, 3])
